@@ -192,7 +192,7 @@ func scNvi(s strategy.Strategy, snaps []*asset.Snapshot) (nvi, ema []float64, w 
 	w = nw + ei.IdlePeriod()
 	n := len(snaps)
 	raw := Collect1(ni.Compute(Src(fClose(snaps), 0), Src(fVol(snaps), 0))) // raw[k] is NVI at position k+nw
-	emas := Collect1(ei.Compute(Src(raw, 0)))                                // emas[k] is at position k+w
+	emas := Collect1(ei.Compute(Src(raw, 0)))                               // emas[k] is at position k+w
 	return pad(raw, nw, n), pad(emas, w, n), w
 }
 
